@@ -7,6 +7,7 @@
 #include <stdlib.h>
 #include <string.h>
 #include <errno.h>
+#include <stdint.h>
 
 void* __real_malloc(size_t);
 void* __real_calloc(size_t, size_t);
@@ -16,7 +17,7 @@ void  __real_free(void*);
 #define TB 17
 typedef struct { void* p; size_t n; long seq; } ent_t;
 static ent_t g_tab[1u << TB];
-static long g_live, g_seq, g_fail1, g_fail2, g_hits, g_double_free;
+static long g_live, g_seq, g_fail1, g_fail2, g_hits;
 static size_t g_live_bytes;
 static int g_on, g_poison = -1;
 static long g_last_fail_seq;
